@@ -526,8 +526,16 @@ def render_images(case):
                     continue
                 data = blobs[name][0]
                 if dec['filter'] == 'DCTDecode':
+                    if spec['kind'] != 'jpeg':
+                        continue
                     if dec['raw'] == data:
                         match.append(name)
+                    else:
+                        from PIL import Image
+                        src = Image.open(io.BytesIO(data))
+                        src.load()
+                        if src.mode == dec['mode'] and [src.width, src.height] == dec['size'] and src.tobytes() == dec['pix']:
+                            match.append(name)
                     continue
                 mode, size, pix, alpha = _source_pixels(data)
                 if mode == dec['mode'] and size == dec['size'] and pix == dec['pix'] and alpha == dec['alpha']:
